@@ -158,6 +158,13 @@ func emitEpic(stream string, rc *rcfg, sc *rtgen.Scenario, pl plan) {
 // registers it as a CScion case.
 func emitScionOn(proc *router.VerifProcessor, stream string, rc *rcfg, sc *rtgen.Scenario) {
 	if !run.Want() {
+		// -only selects other cases: the packet still goes through the reused processor, so
+		// that a later, selected packet of the sequence sees the same history
+		if proc != nil {
+			if raw, err := sc.Desc.Serialize(); err == nil {
+				rtgen2.RunOn(proc, rc.rt, raw, sc.Ing)
+			}
+		}
 		run.Skip()
 		return
 	}
@@ -190,6 +197,15 @@ func emitScionOn(proc *router.VerifProcessor, stream string, rc *rcfg, sc *rtgen
 // emitEpicOn is emitEpic on a reused packet processor (nil: a fresh one).
 func emitEpicOn(proc *router.VerifProcessor, stream string, rc *rcfg, sc *rtgen.Scenario, pl plan) {
 	if !run.Want() {
+		if proc != nil { // keep the history of the reused processor (see emitScionOn)
+			if raw0, err := sc.Desc.Serialize(); err == nil {
+				e := rtgen2.Epic{Counter: pl.counter}
+				if rec0, _, err := rtgen2.Parse(raw0); err == nil && len(rec0.Infos) > 0 {
+					e.PktTS, _ = pktTSFor(rec0.Infos[0].Timestamp, time.Now().UnixNano()+pl.offsetNs)
+				}
+				rtgen2.RunOn(proc, rc.rt, rtgen2.ToEpic(raw0, e), sc.Ing)
+			}
+		}
 		run.Skip()
 		return
 	}
